@@ -173,6 +173,11 @@ def passthrough(rep):
     for col in ("red_t", "green_t", "blue_t"):
         pairs.append(Pair(par1, "[&]{ gray8_pixel_t p(g); rgba8_pixel_t d; color_convert(p, d); return (iptr)get_color(d, %s()); }()" % col, "(iptr)g", "S3-passthrough", "gray8 -> rgba8 %s == gray" % col, "S3:gray_to_rgba:%s" % col, "include/boost/gil/extension/toolbox/color_converters/gray_to_rgba.hpp"))
     pairs.append(Pair(par1, "[&]{ gray8_pixel_t p(g); rgba8_pixel_t d; color_convert(p, d); return (iptr)get_color(d, alpha_t()); }()", "(iptr)255", "S3-passthrough", "gray8 -> rgba8 alpha == max", "S3:gray_to_rgba:alpha", "include/boost/gil/extension/toolbox/color_converters/gray_to_rgba.hpp"))
+    # cmyka -> rgba: the alpha channel is carried over like the one of gray_alpha
+    srcc = "cmyka8_pixel_t p(g, g, g, g, a);"
+    for dt, ch in (("rgba8_pixel_t", "std::uint8_t"), ("rgba16_pixel_t", "std::uint16_t")):
+        pairs.append(Pair(par, "[&]{ %s %s d; color_convert(p, d); return (iptr)get_color(d, alpha_t()); }()" % (srcc, dt), "(iptr)channel_convert<%s>(a)" % ch, "S3-passthrough",
+                          "cmyka8 -> %s alpha == channel_convert(alpha)" % dt, "S3:cmyka:%s:alpha" % dt, W + "cmyka.hpp"))
     rep.rule("S3 pass-through channels: equal value-numbering normal forms")
     run_pairs(rep, "C18", pairs, header=HDR, nchunks=4)
     rep.floor("obligations:S3-passthrough", 15)
@@ -215,13 +220,14 @@ void inst(){
   cc<rgb8_pixel_t,hsv32f_pixel_t>(); cc<hsv32f_pixel_t,rgb8_pixel_t>(); cc<rgb8_pixel_t,hsl32f_pixel_t>(); cc<hsl32f_pixel_t,rgb8_pixel_t>();
   cc<rgb8_pixel_t,xyz32f_pixel_t>(); cc<xyz32f_pixel_t,rgb8_pixel_t>(); cc<rgb8_pixel_t,lab32f_pixel_t>(); cc<lab32f_pixel_t,rgb8_pixel_t>();
   cc<rgb8_pixel_t,ycbcr_601_8_pixel_t>(); cc<ycbcr_601_8_pixel_t,rgb8_pixel_t>(); cc<rgb8_pixel_t,ycbcr_709_8_pixel_t>(); cc<ycbcr_709_8_pixel_t,rgb8_pixel_t>(); cc<ycbcr_601_8_pixel_t,rgb16_pixel_t>(); cc<gray_alpha8_pixel_t,rgba8_pixel_t>(); cc<gray_alpha8_pixel_t,rgb8_pixel_t>();
-  cc<gray_alpha8_pixel_t,gray8_pixel_t>(); cc<cmyka8_pixel_t,rgba8_pixel_t>(); cc<gray8_pixel_t,rgba8_pixel_t>();
+  cc<gray_alpha8_pixel_t,gray8_pixel_t>(); cc<cmyka8_pixel_t,rgba8_pixel_t>(); cc<ycbcr_601_8_pixel_t,rgb8s_pixel_t>(); cc<ycbcr_709_8_pixel_t,rgb8s_pixel_t>(); cc<gray8_pixel_t,rgba8_pixel_t>();
 }
 ''')
     d = C.astdump(src, src[:-4] + ".json", ["^boost::gil::default_color_converter_impl::"], extra=[])
     transfer_pairs(rep, d["functions"])
     matrix_pairs(rep, d["functions"])
     clamp_subjects(rep, d["functions"])
+    clamped_stores(rep, d["functions"])
     d["functions"] = [f for f in d["functions"] if f["name"].endswith("operator()")]
     rep.rule("S5 toolbox converters reach channels only through get_color/static_for_each (no at_c, semantic_at_c, dynamic_at_c, operator[])")
     POS = ("boost::gil::at_c", "boost::gil::semantic_at_c", "boost::gil::dynamic_at_c")
@@ -447,7 +453,8 @@ def matrix_pairs(rep, fns):
             maps.setdefault(c + (f["name"].split("::")[-1] + ":" + str(len(f["full"])),), ("unknown", str(e), f))
             continue
         if len(stores) == 3:
-            dstbits = "16" if "unsigned short" in f["full"].split("operator()")[-1].split("convert")[-1] else "8"
+            dpart = f["full"].split("operator()")[-1].split("convert")[-1]
+            dstbits = "16" if "unsigned short" in dpart else ("8s" if "pixel<signed char" in dpart.split("pixel<unsigned char")[-1] else "8")
             maps[c + (f["name"].split("::")[-1] + "<" + dstbits + ">",)] = ("ok", stores, f)
     for fam in ("601", "709"):
         fw = [(k, v) for k, v in maps.items() if k[0] == fam and k[1] == "fwd" and v[0] == "ok"]
@@ -485,7 +492,9 @@ def matrix_pairs(rep, fns):
                     want = 1.0 if col == out else 0.0
                     if abs(comp.get(col, 0.0) - want) > 0.02:
                         prob.append("%s of ycbcr->rgb(rgb->ycbcr) has coefficient %.4f on %s (expected %g)" % (out, comp.get(col, 0.0), col, want))
-                if abs(comp.get(1, 0.0)) > 1.5:
+                # a signed destination depth holds the level v as v + min (channel_convert's range map): the identity has that constant
+                off = -128.0 if k[2].endswith("<8s>") else 0.0
+                if abs(comp.get(1, 0.0) - off) > 1.5:
                     prob.append("%s of ycbcr->rgb(rgb->ycbcr) has the constant %.2f" % (out, comp.get(1, 0.0)))
                 if not any(nn.startswith("clamp(0") for nn in notes):
                     prob.append("%s is narrowed to the destination channel without a clamp to [0,255]" % out)
@@ -740,6 +749,78 @@ def gamut(rep, wd):
         else:
             rep.incon("S7-gamut", key, bad[0].detail)
     rep.floor("obligations:S7", 6)
+
+
+def clamped_stores(rep, fns):
+    """S12: a value that was clamped to [lo, hi] and is then cast to the destination channel type arrives only if that type holds [lo, hi]"""
+    from .ast.rules import _TYRANGE, _cty
+    rep.rule("S12 in every instantiated colour converter an explicit integral cast of a value that was clamped to constants [lo, hi] targets a type that holds [lo, hi] "
+             "(`(dst_channel_t) red` with red in 0..255 and a signed 8 bit destination stores 255 as -1; the destination depth needs channel_convert). Witness: hi")
+    seen = set()
+    for f in fns:
+        if f.get("body") is None or "color_convert" not in f["name"] and "default_color_converter_impl" not in f["name"] and "::convert" not in f["name"]:
+            continue
+        inits = {}
+        for dn, _ in R.find(f["body"], lambda x: x.get("k") == "Decl"):
+            for dd in dn["decls"]:
+                if dd.get("id") and dd.get("init") is not None:
+                    inits[dd["id"]] = dd["init"]
+
+        def clamp_interval(n):
+            n = R.strip(n)
+            while isinstance(n, dict) and n.get("k") in ("ImplicitCast", "ExplicitCast", "Paren") and "const" not in n:
+                n = R.strip(n.get("e"))
+            if isinstance(n, dict) and n.get("k") == "Call" and re.search(r"(^|::)clamp$", (n.get("callee") or {}).get("name", "")) and len(n.get("args", [])) == 3:
+                lo, hi = _const_of(n["args"][1]), _const_of(n["args"][2])
+                if lo is not None and hi is not None:
+                    return (lo, hi)
+            return None
+        for x, _ in R.find(f["body"], lambda x: x.get("k") in ("ExplicitCast", "ImplicitCast") and x.get("cast") == "IntegralCast" and _cty(x.get("to_c")) in _TYRANGE):
+            e = R.strip(x.get("e"))
+            while isinstance(e, dict) and e.get("k") in ("ImplicitCast", "Paren"):
+                e = R.strip(e.get("e"))
+            iv = clamp_interval(e)
+            if iv is None and isinstance(e, dict) and e.get("k") == "DeclRef" and e.get("id") in inits:
+                iv = clamp_interval(inits[e["id"]])
+            if iv is None:
+                continue
+            cls = re.sub(r"boost::gil::", "", f.get("cls") or f["name"])
+            mfam = re.search(r"(ycbcr_\d+|hsl|hsv|lab|xyz|cmyka|gray_alpha)", cls)
+            cs = mfam.group(1) if mfam else cls[:40]
+            to = _cty(x["to_c"])
+            key = "S12:%s:%s:stored as %s" % (cs, f["name"].split("::")[-1], to)
+            lim = _TYRANGE[to]
+            bad = iv[0] < lim[0] or iv[1] > lim[1]
+            if key in seen and not bad:
+                continue
+            seen.add(key)
+            rep.count("obligations:S12")
+            if bad:
+                w = iv[1] if iv[1] > lim[1] else iv[0]
+                rep.violation("S12-clamped-store", key, R.fn_where(f), {"clamped to": list(iv), "cast to": to, "range of that type": list(lim), "line": x.get("line"),
+                                                                       "example": "ycbcr_601 of white -> rgb8s: the level %d is stored as %d (rgb8 gives 254,254,254, rgb8s -2,-2,-2 instead of 126,126,126)" % (w, (w - lim[0]) % (lim[1] - lim[0] + 1) + lim[0])})
+            else:
+                rep.ok("S12-clamped-store", key, {"clamped to": list(iv)})
+    rep.floor("obligations:S12", 1)
+
+
+def _const_of(n):
+    while isinstance(n, dict):
+        if "const" in n:
+            try:
+                return int(str(n["const"]), 0)
+            except ValueError:
+                try:
+                    return float(n["const"])
+                except ValueError:
+                    return None
+        if n.get("k") in ("Paren", "ImplicitCast", "ExplicitCast"):
+            n = n.get("e")
+        elif n.get("k") == "Int":
+            return int(n.get("v", n.get("value", 0)))
+        else:
+            return None
+    return None
 
 
 def clamp_subjects(rep, fns):
